@@ -7,14 +7,24 @@ MITM / OOB rules) in vp/harness/c13_pair.py.
 
 sub-checks
   table     : all 400 cells  5x5 IO x {legacy,SC}^2 x MITM^2, all-accept users, bonding, every key
-              distributed; + OOB cells; + JSON key store cells.  Each run also re-encrypts on a later
+              distributed; + 10 OOB cells; + 8 JSON key store cells.  Each run also re-encrypts on a later
               connection in the same and in swapped roles.
-  deviations: around every cell, every single deviation (quick) / pairs of deviations on the 50
-              symmetric cells (thorough) in: bonding per side, key-distribution masks per side, initiator
-              role (security request), negative user answers, wire tamper of Confirm / Random / DHKey Check /
-              Public Key at the SMP fixed channel, identity-address type.
-  masks     : 16x16 key-distribution masks per side on the four cells legacy-JW, legacy-passkey, SC-JW, SC-NC.
-  schedules : order-preserving delivery delays (vp/explore.py) on representative cells.
+  deviations: single deviations around the cells (thorough: around all 400, plus every pair of deviations around
+              the 50 cells with MITM on both sides and equal SC flags) in: bonding per side, key-distribution
+              mask slots per side, initiator role (security request), identity-address type / address type of
+              the connection, every negative user answer at every prompt of the cell's model, one-bit corruption
+              of Confirm / Random / DHKey Check / Public Key at the receiving SMP fixed channel.
+  masks     : 16x16 key-distribution masks per side on the cells legacy-JW, legacy-passkey, SC-JW, SC-NC.
+  schedules : order-preserving delivery delays (vp/explore.py; channels = HCI both ways, link, and the moment
+              a user answers a prompt) on 20 representative cases.
+
+Oracle (judge): (1) both sides conclude and agree; (2) on success both encrypted, at every LL_ENC_REQ the
+receiving host's key equals the sender's, same LTK / shared (LTK, EDIV, Rand) triples, IRKs delivered, keys
+stored when bonded; (3) on the later connections the central's encrypt() and the peripheral's
+long_term_key_provider yield the same key (required for SC, and for legacy in the direction whose ENC bit was
+negotiated); (4) both sessions chose the model / display roles of Table 2.8 and the users were asked to do
+exactly that; (5) no key is flagged authenticated after Just Works; (6) a negative answer or a corrupted
+value never ends in success and a failure never leaves keys in either store.
 """
 from __future__ import annotations
 
